@@ -123,8 +123,8 @@ def make_solver_class(polarity):
 SOLVER_NAMES = ("Cadical153", "Cadical", "Cadical103", "Cadical195", "Glucose3", "Glucose4", "Glucose42", "Minisat22", "MinisatGH", "Lingeling", "Solver")
 
 
-def pipeline_package(repo, polarity):
-    P = Package(repo)
+def pipeline_package(repo, polarity, full_stack=False):
+    P = Package(repo, full_stack=full_stack)
     env = P.env("sat.py")
     cls = make_solver_class(polarity)
     imp = dict(env["__imports__"])
